@@ -115,7 +115,7 @@ CHECKS['C08'] = {
 
 CHECKS['C14'] = {
     'jobs': {'quick': [J('c14_resolver.cpp', ['K=3', 'PROTO=0', 'SMALL'], wall=280, markers=(1, 2)), J('c14_resolver.cpp', ['K=2', 'PROTO=1'], wall=120, markers=(1, 2)),
-                       J('c14_resolver.cpp', ['K=2', 'PROTO=0', 'EARLY'], wall=200, markers=(1, 2))],
+                       J('c14_resolver.cpp', ['K=2', 'PROTO=0', 'EARLY', 'SMALL'], wall=200, markers=(1, 2))],
              'thorough': [J('c14_resolver.cpp', ['K=4', 'PROTO=0'], wall=700, markers=(1, 2)), J('c14_resolver.cpp', ['K=3', 'PROTO=1'], wall=700, markers=(1, 2))]},
     'bounds': {'quick': 'K=3 operations from {resolve host name (3 names; latency 0/1us or symbolic 1ns..1s; 1-2 addresses or host_not_found), resolve IPv4 literal, resolve IPv6 literal, cancel(), '
                         'cancel() from inside the next completion handler} issued at symbolic instants (gap 0 or 1ns..300ms) on a TCP resolver (K=3) and a UDP resolver (K=2); services 80/0/65535 on the first resolve; '
@@ -269,7 +269,7 @@ CHECKS['C17'] = {
                         'early end-of-file after 40 ms, while a well-behaved client negotiates and exchanges 4 bytes through the same proxy. '
                         'BIND (v4 and v5; bound to the proxy address or 0.0.0.0; optionally a first client that negotiates BIND for the same port and leaves at once or 3 ms later before any peer connects; peer dials in at once or after 4 ms and may speak first): both replies byte for byte, 4 symbolic bytes relayed and answered, counters. '
                         'UDP ASSOCIATE (v5; with and without the empty-host-name reply flag; client endpoint declared or learned): 1-2 datagrams with IPv4 or host-name header and 1-2 symbolic payload bytes forwarded header-stripped to a UDP target and its answers wrapped (by address, or by name once the client used the name), '
-                        'optionally preceded by a malformed datagram of 1, 4, 9 or 12 bytes (quick: bytes 0-4 and 10-11 symbolic, bytes 5-9 from two alternatives; thorough: every byte symbolic)',
+                        'optionally preceded by a malformed datagram of 1, 4, 9 or 12 bytes (quick: bytes 0-4 and 11 symbolic, bytes 5-10 from two alternatives, and only one plain datagram follows; thorough: every byte symbolic)',
                'thorough': 'same harness, larger wall budget'},
     'outside': ['BIND by IPv6 address, more than two UDP datagrams, datagrams longer than 64 bytes, fragments', 'the over-long read case (needs more than 64 KiB in flight)',
                 'intra-object overflow of the 64 KiB char buffers (byte arrays are not sub-object checked)'],
